@@ -12,7 +12,7 @@ import (
 
 func init() {
 	register("C17", runC17,
-		"Decides structural necessary conditions of 'reservation pods track shared-GPU usage': every function of the reservation service that creates, deletes or labels pods (or looks up the group's reservation pod) runs only with the per-group mutex held for that group; lock and release are paired and the group mutex changes its reference count exactly once per acquire/release; pod deletion/completion, BindRequest deletion, the bind path and binder start-up all reach the per-group sync; the sync deletes a reservation pod only without live consumers and consumers only without a reservation; the label written for a consumer is written on the caller's pod object.",
+		"Decides structural necessary conditions of 'reservation pods track shared-GPU usage': every function of the reservation service that creates, deletes or labels pods (or looks up the group's reservation pod) runs only with the per-group mutex held for that group; lock and release are paired and the group mutex changes its reference count exactly once per acquire/release; pod deletion/completion, BindRequest deletion, the bind path and binder start-up all reach the per-group sync; the sync deletes a reservation pod only without live consumers and consumers only without a reservation; the label written for a consumer is written on the caller's pod object. Also: the completion predicate is false only for non-pods, unchanged phases and non-terminal phases; GetGpuGroups scans the per-group labels before every return.",
 		"the iff-invariant over interleavings and crash points (needs execution / model checking)")
 }
 
